@@ -397,6 +397,7 @@ pub const PAYLOADS_FREE: [&str; 8] = ["e\u{301}", "\u{212b}", "\u{fb01}", "\u{31
 pub fn stress(run: &Run, section: &str, payloads: &[&str], f: &(dyn Fn(&str, &mut Local) -> bool + Sync)) {
     let all = stress_strings(payloads);
     run.par(section, true, |tid, n, l| {
+        let mut buf = String::new();
         for (i, s) in all.iter().enumerate() {
             if i % n != tid {
                 continue;
@@ -405,7 +406,10 @@ pub fn stress(run: &Run, section: &str, payloads: &[&str], f: &(dyn Fn(&str, &mu
                 return;
             }
             l.cases += 1;
-            if !f(s, l) {
+            // the i-th string is handed over as a view that starts i mod 16 bytes after an allocation boundary (pointer alignment is not
+            // part of the argument's value)
+            let view = view_at(&mut buf, s, (i / n + i / 384) % 16);
+            if !f(view, l) {
                 return;
             }
         }
@@ -561,6 +565,7 @@ pub const PAYLOADS_FAMILIES: [&str; 6] = [
 /// run `f` over an arbitrary list of strings, partitioned over the threads
 pub fn battery(run: &Run, section: &str, all: &[String], f: &(dyn Fn(&str, &mut Local) -> bool + Sync)) {
     run.par(section, true, |tid, n, l| {
+        let mut buf = String::new();
         for (i, s) in all.iter().enumerate() {
             if i % n != tid {
                 continue;
@@ -569,7 +574,8 @@ pub fn battery(run: &Run, section: &str, all: &[String], f: &(dyn Fn(&str, &mut 
                 return;
             }
             l.cases += 1;
-            if !f(s, l) {
+            let view = view_at(&mut buf, s, (i / n) % 16);
+            if !f(view, l) {
                 return;
             }
         }
@@ -889,4 +895,62 @@ pub fn concurrent_unit(p: Prof, t: usize) -> String {
         Prof::UserMapped => format!("{u}{c}\u{ff21}{c}e\u{301}"),
         Prof::UserPreserved => format!("{u}{c}\u{ff42}{c}e\u{301}"),
     }
+}
+
+/// N DISTINCT valid characters (N around 255..70000) followed by an offender of each kind (disallowed control, unassigned, ZWNJ without
+/// its context, a compatibility character, nothing): per-label sets / tables of the characters seen so far that overflow silently
+pub fn many_distinct_then_offender(free: bool) -> Vec<String> {
+    let d = db();
+    let valid: Vec<char> = (0x4e00u32..0x9fa6).chain(0xac00..0xd7a4).chain(0x3400..0x4db6).chain(0x20000..0x2a6d7)
+        .filter(|cp| matches!(d.id(*cp), crate::ucd::Dpv::PValid))
+        .filter_map(char::from_u32)
+        .collect();
+    let mut v = Vec::new();
+    for n in [254usize, 255, 256, 257, 1023, 1024, 1025, 2046, 2047, 2048, 2049, 3000, 4095, 4096, 4097, 8192, 16384, 32768, 65535, 65536, 65537, 70_000] {
+        if n > valid.len() {
+            continue;
+        }
+        let run: String = valid[..n].iter().collect();
+        for off in ["", "\u{7}", "\u{378}", "\u{200c}x", "\u{2126}", "\u{b7}", if free { "\u{a0}z" } else { "\u{ff21}" }, "e\u{301}"] {
+            v.push(format!("{run}{off}"));
+            v.push(format!("{run}{off}{}", valid[0]));
+        }
+    }
+    v
+}
+
+/// a composing pair of two STARTERS (two-part vowel signs, Hangul jamo, halfwidth voiced marks) or base + mark placed so that its second
+/// character starts exactly at / one byte around a multiple of 4096, 8192, 24576, 32768, 65536 bytes (and 1 MiB), behind an earlier
+/// sequence that shrinks under normalisation: block-wise normalisation that cuts between the two
+pub fn pairs_at_block_cuts(compat: bool) -> Vec<String> {
+    let p = pools();
+    let mut pairs: Vec<(char, char)> = p.starter_pairs.iter().copied().step_by(3).collect();
+    pairs.extend([('e', '\u{301}'), ('\u{1100}', '\u{1161}'), ('\u{9c7}', '\u{9be}')]);
+    if compat {
+        pairs.extend([('\u{ff76}', '\u{ff9e}'), ('\u{ff8a}', '\u{ff9f}')]);
+    }
+    let mut cuts: Vec<usize> = Vec::new();
+    for base in [4096usize, 8192, 12288, 16384, 24576, 32768, 49152, 65536, 1 << 20] {
+        cuts.push(base);
+    }
+    let mut v = Vec::new();
+    for (pi, (a, b)) in pairs.iter().enumerate() {
+        for cut in &cuts {
+            if *cut >= (1 << 20) && pi % 8 != 0 {
+                continue;
+            }
+            for delta in [-1i64, 0, 1] {
+                for lead in ["", "e\u{301}"] {
+                    // the second character of the pair starts at byte offset cut + delta
+                    let target = (*cut as i64 + delta) as usize;
+                    let used = lead.len() + a.len_utf8();
+                    if target < used {
+                        continue;
+                    }
+                    v.push(format!("{lead}{}{a}{b}{}", "a".repeat(target - used), "a".repeat(100)));
+                }
+            }
+        }
+    }
+    v
 }
